@@ -472,7 +472,7 @@ impl SignatureContext<'_> {
     pub async fn v2_check_header_auth(&mut self, auth_v2: AuthorizationV2<'_>) -> S3Result<CredentialsExt> {
         let method = &self.req_method;
 
-        let has_date = self.hs.get_all("date").next().is_some() || self.hs.get_unique("x-amz-date").is_some();
+        let has_date = self.hs.get_all("date").next().is_some() || self.hs.get_all("x-amz-date").next().is_some();
         if has_date.not() {
             return Err(invalid_request!("missing date"));
         }
